@@ -1,0 +1,1 @@
+//! Verification hooks: `relay_recv` (thin pass-through wrappers; feature `verif-hooks` only).
